@@ -69,6 +69,7 @@ class Outcome:
     verdicts: list[tuple[str, dict]] = field(default_factory=list)  # (signature, detail)
     skipped: str | None = None  # reason the case was not judged (counted)
     sample: Any = None  # what to show in evidence instead of the raw case
+    nontrivial_many: list = field(default_factory=list)  # several distinct non-trivial sub-cases in one generated case (batches)
 
     def bad(self, sig: str, **detail: Any) -> None:
         self.verdicts.append((sig, detail))
@@ -145,6 +146,12 @@ class Ctx:
                 self.nontrivial.add(h)
                 if len(self.samples) < self.max_samples:
                     self.samples.append(out.sample if out.sample is not None else case)
+        for k in out.nontrivial_many:
+            h = chash(k)
+            if h not in self.nontrivial:
+                self.nontrivial.add(h)
+                if len(self.samples) < self.max_samples and out.sample is not None and out.sample not in self.samples:
+                    self.samples.append(out.sample)
         for sig, detail in out.verdicts:
             if self.known.match(self.pid, sig) is not None:
                 self.excluded[sig] += 1
